@@ -595,8 +595,9 @@ fn content(r: &mut Rng, pool: &[Vec<u8>]) -> Vec<u8> {
 pub fn gen_scenarios(seed: u64, tier: &str) -> Vec<Scenario> {
     let mut r = Rng::new(seed ^ 0xC03);
     let n = if tier == "thorough" { 1500 } else { 120 };
-    let pool: Vec<Vec<u8>> = vec![b"".to_vec(), b"A".to_vec(), b"BB".to_vec(), b"hello world".to_vec(), vec![0x58; 300], (0..=255u8).collect(), vec![0x59; 70000]];
-    let pool: Vec<Vec<u8>> = pool.into_iter().collect();
+    // (the last two: 8 KiB of 'A' followed by 16 KiB of zeros, and one page of zeros - a writer that treats zero runs specially)
+    let pool: Vec<Vec<u8>> = vec![b"".to_vec(), b"A".to_vec(), b"BB".to_vec(), b"hello world".to_vec(), vec![0x58; 300], (0..=255u8).collect(), vec![0x59; 70000],
+        { let mut v = vec![0x41u8; 8192]; v.extend(vec![0u8; 16384]); v }, vec![0u8; 4096]];
     let base_paths = ["a", "b", "d/x", "d/y"];
     let mut out = vec![];
     for id in 0..n {
